@@ -15,6 +15,34 @@ def run(ctx, idx):
     from .C14 import rule_d as _computed_attrs
 
     _computed_attrs(ctx, idx, A, rule="C13.f")
+    # Program.run works outside Command.run's wrapper: what it does with a raw argument value must not be able to raise.  The
+    # raw value of an argument may be handed to a cleaner (total by C13.a) or tested with isinstance - not iterated, hashed as a
+    # key, or flattened: a number where a list is declared, a list where a name is, then escape as TypeError.
+    ctx.rule("C13.g", "In Program.run a raw argument value (`<argument>.value`) goes only to a parameter's clean() or into an isinstance test; it is never iterated, flattened or used as a dictionary key before it has been cleaned (a raw TypeError there is outside every wrapper).")
+    pr_ = A.program_run
+    node_ = getattr(pr_, "node_orig", None) or pr_.node
+    par_ = {}
+    for x_ in ast.walk(node_):
+        for c_ in ast.iter_child_nodes(x_):
+            par_[id(c_)] = x_
+    argvars = {t_.id for lp_ in ast.walk(node_) if isinstance(lp_, (ast.For, ast.comprehension)) and K.src(lp_.iter).endswith(".arguments") for t_ in ast.walk(lp_.target) if isinstance(t_, ast.Name)}
+    n_raw = 0
+    for x_ in ast.walk(node_):
+        if not (isinstance(x_, ast.Attribute) and x_.attr == "value" and isinstance(x_.value, ast.Name) and x_.value.id in argvars and isinstance(x_.ctx, ast.Load)):
+            continue
+        n_raw += 1
+        up = par_.get(id(x_))
+        ok_use = False
+        if isinstance(up, ast.Call) and isinstance(up.func, ast.Attribute) and up.func.attr == "clean" and up.args and up.args[0] is x_:
+            ok_use = True
+        if isinstance(up, ast.Call) and isinstance(up.func, ast.Name) and up.func.id == "isinstance" and up.args and up.args[0] is x_:
+            ok_use = True
+        if isinstance(up, ast.Assign) and up.value is x_:
+            ok_use = True  # stored under a name: the uses of that name are not followed (no verdict from this site)
+        ctx.ob("C13.g", "%s::raw-argument-value@%d" % (pr_.key, n_raw), K.rel(pr_), x_.lineno, ok_use,
+               "the raw value goes to clean() / an isinstance test" if ok_use else
+               "`%s` uses the raw value of an argument before it was cleaned (`%s`): a value of the wrong kind - a number where a list of results is declared, a list where one name is - raises TypeError here, in Program.run's own code, outside Command.run's wrapper" % (K.src(up)[:70] if up is not None else K.src(x_), K.src(x_)))
+    ctx.floor("C13.g", "uses of raw argument values in Program.run", n_raw, 1)
     ctx.assume("operation table of Engine D (see C20); third-party code raises nothing on well-typed arguments; six.raise_from and sys.exit do not return")
     ctx.rule("C13.a", "Cleaners are total: for every Parameter.clean and every raw kind the escape set ⊆ subclasses of MPilotError.")
     ctx.rule("C13.b", "Run boundary: Command.run's try covers validate_params and execute, catches Exception, re-raises MPilotError unchanged and raises UnexpectedError (a ProgramError) from everything else; inside any handler an attribute read on the caught error exists for every class the handler admits; every explicit raise reachable from from_source / Program.run outside that handler is SyntaxError or an MPilotError subclass.")
